@@ -102,6 +102,54 @@ def run(ctx):
     stores = [meth for meth, (r, w) in m.field_effects().items() if '_data_session' in w]
     ctx.check(okw and stores == ['_process_batch'], 'C09.R3', 'KmipEngine._process_batch|one-session-per-batch', m.site(pb, pb),
               'a fresh session is opened per batch (context manager) and bound to _data_session only there', 'the data session is not a per-batch context-managed session')
+    # ---------------- R4 nothing in the package takes the database connection out of transactional mode
+    ctx.rule('C09.R4', 'the database connection stays in the driver\'s transactional mode: no autocommit/isolation_level option at create_engine / sessionmaker / execution_options, and any store to a connection\'s isolation_level/autocommit attribute is undone on every path to the function exit by a store of the value saved before it')
+    from ..astutil import all_functions
+    n_cfg = 0
+    n_att = 0
+    for rel in src.modules('kmip'):
+        t = src.tree(rel)
+        for c in ast.walk(t):
+            if isinstance(c, ast.Call):
+                cn = (call_name(c) or '')
+                last = cn.split('.')[-1]
+                if last in ('create_engine', 'sessionmaker', 'execution_options', 'scoped_session', 'connect'):
+                    if last in ('create_engine', 'sessionmaker'):
+                        n_cfg += 1
+                    for kw in c.keywords:
+                        if kw.arg in ('isolation_level', 'autocommit') and not (isinstance(kw.value, ast.Constant) and kw.value.value is False):
+                            ctx.fail('C09.R4', '%s|%s(%s=)' % (rel, last, kw.arg), '%s:%s' % (rel, c.lineno),
+                                     '%s is called with %s=%s: statements can then be made durable one by one, and Session.commit() no longer delimits the operation' % (cn, kw.arg, U(kw.value)))
+        for qn, fn, cls in all_functions(t):
+            stores = [n for n in walk_local(fn) if isinstance(n, ast.Assign) and len(n.targets) == 1 and isinstance(n.targets[0], ast.Attribute) and n.targets[0].attr in ('isolation_level', 'autocommit')]
+            if not stores:
+                continue
+            g = CFG(fn)
+            from ..dataflow import ReachingDefs, node_of_expr
+            rd = ReachingDefs(g)
+            for st in stores:
+                n_att += 1
+                site = '%s:%s %s' % (rel, st.lineno, qn)
+                recv = U(st.targets[0].value)
+                attr = st.targets[0].attr
+                node = node_of_expr(g, st)
+                # a restoring store: same receiver/attribute, value = a local whose only definition is a read of that attribute before this store
+                def is_restore(o):
+                    if not (U(o.targets[0].value) == recv and o.targets[0].attr == attr and isinstance(o.value, ast.Name)):
+                        return False
+                    on = node_of_expr(g, o)
+                    vals = rd.values(on, o.value.id)
+                    return bool(vals) and all(isinstance(v, ast.Attribute) and U(v.value) == recv and v.attr == attr for v in vals)
+                if is_restore(st):
+                    continue
+                restores = [rn for o in stores if o is not st and is_restore(o) for rn in (g.by_stmt.get(id(o)) or [])]
+                ok = bool(restores) and g.all_paths_pass(node, g.exit, restores)
+                ctx.check(ok, 'C09.R4', '%s|store %s.%s' % (qn, recv, attr), site, 'the changed transaction mode is restored from the saved value on every path',
+                          '%s.%s is set to %s and not restored from the saved value on every path to the function exit: the connection can stay in autocommit, so each INSERT/UPDATE/DELETE becomes durable on its own and commit() no longer makes an operation all-or-nothing' % (recv, attr, U(st.value)))
+    ctx.count('engine_and_session_factory_sites', n_cfg, 2)
+    ctx.analysed['transaction_mode_stores'] = n_att
+    if n_att == 0:
+        ctx.ok('C09.R4', 'kmip/**', 'no store to an isolation_level/autocommit attribute and no such option at %d engine/session factory sites' % n_cfg)
     ctx.not_decided += ['process death between SQL statements inside one commit (SQLite journal)', 'durability of an acknowledged commit (fsync behaviour of SQLite)',
                         'that a store left by a crash can be opened and listed']
     ctx.assumptions += ['one Session.commit() is one atomic, durable SQLite transaction covering all rows of joined-table objects',
